@@ -416,6 +416,10 @@ def misc_conv_cases(rng, tzs, thorough):
         put(t)
     for t in ["030405", "240000", "236000", "235960", "235959.999[-0.01]", "000000[+14.59]", "000000[-12.59]", "000000[+15]", "0304", "0304056", "030405.12", "030405[5", "030405\n"]:
         out.append({"op": "conv", "t": "tm", "text": t, "expect": None, "cls": "quirk"})
+    # a non-ASCII decimal digit in each digit position of the date / time / millisecond fields ([0-9] classes: rejected today)
+    full = base + ".678[-5.30:EST]"
+    for p_ in list(range(14)) + [15, 16, 17, 20, 22, 23]:
+        put(full[:p_] + rng.choice(UNI) + full[p_ + 1:], p_ >= 8 and rng.random() < 0.3)
     # non-ASCII decimal digits: the minutes group is \d\d, and the hours run can backtrack into it
     for u1 in UNI:
         for u2 in UNI[:2] + ["3"]:
@@ -503,7 +507,7 @@ def run(rep, tier, rng):
         if b["expect"] is not None:
             cases += corrupt_cases(rng, b)
     cases += misc_conv_cases(rng, list(U.TZS), thorough)
-    cases += bracket_enum_cases(rng, 5 if thorough else 3, 4000 if thorough else (6000 if deep else 600))
+    cases += bracket_enum_cases(rng, 5 if thorough else 3, 4000 if thorough else (4000 if deep else 600))
     # values: in-domain (1900-2200, whole minutes -12:00..+14:00) and beyond (years 1-9999, any whole-second offset)
     cases += [unconv_case(rng, False, True) for _ in range(3000 * scale)] + [unconv_case(rng, True, True) for _ in range(1000 * scale)]
     cases += [unconv_case(rng, False, False) for _ in range(1200 * scale)] + [unconv_case(rng, True, False) for _ in range(300 * scale)]
@@ -536,7 +540,7 @@ def run(rep, tier, rng):
                 "reader and by the library (round trip); naive values both ways. Beyond the property's domain (correspondence only): years 1-9999, "
                 "sub-minute offsets, quirk forms ([-:EST], any separator, trailing newline, non-ASCII decimal digits, int() digit limit), offset-bracket contents "
                 "over 0 1 5 - + . : x E S T ] exhaustively to length %d plus %d longer samples. non-trivial = implementation returned a value; distinct by full case"
-                % (5 if thorough else 3, 4000 if thorough else (6000 if deep else 600)))
+                % (5 if thorough else 3, 4000 if thorough else (4000 if deep else 600)))
     bad = C.coq_bad_indices(PROP, "dt", ["Base.Digits", "Model.Calendar", "Model.DateTimeM", "Model.DateTimeMCases", "Gen.DateTimeGen"],
                             "dcase_ok nd_zeros tzs", "dcase", items, shard=2000)
     for i in bad[:60]:
